@@ -45,7 +45,9 @@ def long_ident(r, used):
                 used.add(n)
                 return n
     while True:
-        n = r.choice("ABCDEFGHJKLMNPQRSTVWXYZ") + "".join(r.choice("abcdefghijklmnopqrstuvwxyz0123456789") for _ in range(6)) + r.choice("QXZ")
+        # (one name in ten begins with an underscore, or is all lower case / all upper case: no spelling is private)
+        lead = r.choice(["_", "__", "_x", "q", "QQ_"]) if r.random() < 0.1 else ""
+        n = lead + r.choice("ABCDEFGHJKLMNPQRSTVWXYZ") + "".join(r.choice("abcdefghijklmnopqrstuvwxyz0123456789") for _ in range(6)) + r.choice("QXZ")
         if n not in used and not descr.K4_RE.match(n):
             used.add(n)
             return n
